@@ -263,7 +263,7 @@ class UnitResult:
         return {
             'uid': self.uid, 'obl': self.obl, 'covers': sorted(self.covers), 'paths': self.paths,
             'aborted': self.aborted, 'undecided': self.undecided, 'crash': self.crash,
-            'queries': self.stats.queries, 'solver_s': self.stats.solver_s,
+            'queries': self.stats.queries, 'solver_s': self.stats.solver_s, 'max_query_s': self.stats.max_query_s, 'max_prove_s': self.stats.max_prove_s,
             'by_backend': self.stats.by_backend, 'wall_s': self.wall_s,
             'interpreted': self.interpreted, 'stubbed': self.stubbed, 'src_used': self.src_used,
             'cache_key_types': {k: sorted(v) for k, v in self.cache_key_types.items()},
